@@ -10,10 +10,10 @@ ONCE_TABLES = {E + "basepointTablePrecomp", E + "basepointNafTablePrecomp"}
 READERS = {"Bytes", "BytesMontgomery", "Equal", "ExtendedCoordinates", "IsNegative"}
 
 
-def events_of(base, chk, fname):
+def events_of(base, chk, fname, variant="distinct"):
     """per path: the sequence of accesses to package-level objects, segmented by Once.Do calls:
     [('acc', kind r|w, global name, inside_once) | ('do', once id, ran_initialiser)]"""
-    r = sweep.run_api(base, chk, fname, log_reads=True)
+    r = sweep.run_api(base, chk, fname, log_reads=True, variant=variant)
     ex = r.ex
     out = []
     sync_other = []
@@ -42,9 +42,9 @@ def events_of(base, chk, fname):
     return r, out
 
 
-def analyse(base, chk, fname):
-    label = fname.replace("filippo.io/edwards25519", "ed")
-    r, traces = events_of(base, chk, fname)
+def analyse(base, chk, fname, variant="distinct"):
+    label = fname.replace("filippo.io/edwards25519", "ed") + (" [one object passed for all same-typed arguments / slice elements]" if variant == "shared" else "")
+    r, traces = events_of(base, chk, fname, variant)
     chk.used(base.prog, fname, "effects / event extraction (" + r.desc + ")")
     summary = {"writes_outside_once": [], "table_access_before_do": [], "globals_read": set(), "once": set()}
     for evs in traces:
@@ -71,6 +71,24 @@ def analyse(base, chk, fname):
                 argobjs.add(a.obj)
         wr = sorted({(r.ex.meta[ev[1]].name, ev[2]) for p in r.paths for ev in p.log if ev[0] == "w" and ev[1] in argobjs})
         chk.fact("%s: a read-only operation writes neither its receiver nor its arguments (values other goroutines may be reading)" % label, not wr, [fname], "effects", detail=str(wr[:3]))
+    # shared arguments are only read: no write to any non-receiver argument, to a slice argument's backing array or to
+    # the objects its elements point to (the receiver is the caller's own value and may alias an argument)
+    hasrecv = base.prog.fn(fname)["hasrecv"]
+    recvobj = r.args[0].obj if hasrecv and r.args and isinstance(r.args[0], X.Ptr) else None
+    shared_objs = set()
+    for a in r.args[1 if hasrecv else 0:]:
+        if isinstance(a, X.Ptr):
+            shared_objs.add(a.obj)
+        elif isinstance(a, X.SliceV):
+            shared_objs.add(a.obj)
+            for p in r.paths[:1]:
+                for c in p.heap.get(a.obj, []):
+                    if isinstance(c, X.Ptr):
+                        shared_objs.add(c.obj)
+    shared_objs.discard(recvobj)
+    inout = short == "Swap"
+    wr2 = sorted({(r.ex.meta[ev[1]].name, str(ev[2])) for p in r.paths for ev in p.log if ev[0] == "w" and ev[1] in shared_objs}) if not inout else []
+    chk.fact("%s: arguments other than the receiver (values another goroutine may be reading), slice arguments and their elements are only read" % label, not wr2, [fname], "effects", detail=str(wr2[:3]))
     chk.fact("%s: the only package-level writes are to a precomputed table inside its own Once.Do initialiser" % label, not summary["writes_outside_once"], [fname], "effects", detail=str(summary["writes_outside_once"][:3]))
     chk.fact("%s: a precomputed table is read only after its Once.Do call has returned (program order)" % label, not summary["table_access_before_do"], [fname], "effects", detail=str(summary["table_access_before_do"][:3]))
     chk.extra.setdefault("events", {})[fname] = dict(once=sorted(summary["once"]), globals_read=sorted(summary["globals_read"]), paths=len(traces),
@@ -161,6 +179,7 @@ def run(chk):
         s = analyse(base, chk, fn)
         chk.extra.setdefault("once_users", {})[fn] = sorted(s["once"])
     items = [(fn, lambda fn=fn: one(fn)) for fn in fns]
+    items += [(fn + " shared", lambda fn=fn: analyse(base, chk, fn, "shared")) for fn in fns if sweep.shared_applicable(prog, fn)]
     items.sort(key=lambda it: 0 if "VarTime" in it[0] else 1)
     run_kernels(chk, items, parallel=False if len(fns) < 3 else None)
     # the forked children cannot return chk.extra; recompute the table users from the fact names / rerun cheap summary in-process
